@@ -10,6 +10,8 @@ def run(ctx):
     ctx.rule("R-CLAIM-ONLY", "claims go to the global address with the NAME as payload", floor=2)
     ca.claim_table(ctx)
     codec.claim_cmp(ctx)
+    ctx.rule("O-NAME", "the compared 64-bit values are the J1939-81 NAME of both sides (fields, value and byte views agree)", floor=50)
+    codec.name(ctx)
     ca.claim_bcast(ctx, "J1939_21")
     ca.claim_bcast(ctx, "J1939_22")
     ca.claim_timer(ctx)
